@@ -1647,9 +1647,11 @@ func generalizeErr(err error) error {
 
 	// If it is not a well known error return it, but never with the connection's addresses: the
 	// text of a net.OpError names both endpoints, one of which is the client.
+	// OpErrors nest: (*net.TCPConn).WriteTo, which io.Copy uses, wraps the OpError of the
+	// failed read in a second one.
 	var opErr *net.OpError
-	if errors.As(err, &opErr) && opErr.Err != nil {
-		return opErr.Err
+	for errors.As(err, &opErr) && opErr.Err != nil {
+		err = opErr.Err
 	}
 	return err
 }
